@@ -204,8 +204,12 @@ def _record(stats: Stats, check: Check, active: list, fam: Family, case: Any, ou
         key = match_known(check, active, fam, case, out)
         if key is not None:
             stats.excluded_known[key] = stats.excluded_known.get(key, 0) + 1
-        elif len(stats.violations) < 20:
-            stats.violations.append((fam.name, case, out.violation, out.kind or "violation"))
+        else:
+            # keep a few per failure shape so that one shallow defect does not hide the others
+            kind = out.kind or "violation"
+            same = sum(1 for v in stats.violations if v[0] == fam.name and v[3] == kind)
+            if same < 3 and len(stats.violations) < 90:
+                stats.violations.append((fam.name, case, out.violation, kind))
 
 
 def _seed_for(seed: int, prop: str, family: str, shard: int) -> int:
@@ -418,7 +422,7 @@ def main(argv: Optional[list] = None) -> int:
             size = len(json.dumps(case, default=str))
             if cur is None or size < cur[0]:
                 by_kind[(name, kind)] = (size, name, case, msg, kind)
-        for (_size, name, case, msg, kind) in list(by_kind.values())[:5]:
+        for (_size, name, case, msg, kind) in list(by_kind.values())[:12]:
             fam = next(f for f in check.families if f.name == name)
             if not args.no_min:
                 from .ddmin import minimise
